@@ -207,7 +207,8 @@ theorem solid_step (c : Ctx α) (inplace : Bool) (Tsh : α) (qe : Nat → α) (T
 
 theorem w_i_new (c : Ctx α) (T : Array α) :
     iceFrac c T = T.map fun t =>
-      F2D.w_i_new (m_ice := if t < c.TeqL then iceMass c.p c.Tm t else zero) (mass_water := c.p.mass_water)
+      F2D.w_i_new (m_ice := zero * mnum (!decide (t < c.TeqL)) + iceMass c.p c.Tm t * mnum (decide (t < c.TeqL)))
+        (mass_water := c.p.mass_water)
         (mass_solute := c.p.mass_solute) := rfl
 
 theorem sigma_new (c : Ctx α) (w : Array α) :
